@@ -86,6 +86,20 @@ def perturbations(rng, am):
                 m = copy.deepcopy(am)
                 m["children"][i]["text"] = other_text(rng, pspec["value"], c["text"])
                 yield f"child-value-changed@{i}", m
+            if c.get("text"):
+                # same length, ONE character different (position: first, last, and a random one)
+                t = c["text"]
+                for pos in sorted({0, len(t) - 1, rng.randrange(len(t)), len(t) * 3 // 4}):
+                    if pspec["value"] in ("Switch", "Light"):
+                        break
+                    repl = "A" if t[pos] != "A" else "B"
+                    if pspec["value"] == "Number":
+                        if not t[pos].isdigit():
+                            continue
+                        repl = "7" if t[pos] != "7" else "3"
+                    m = copy.deepcopy(am)
+                    m["children"][i]["text"] = t[:pos] + repl + t[pos + 1:]
+                    yield f"child-value-one-char-flipped@{i}", m
             for a in c["attrs"]:
                 if a == "name":
                     continue
